@@ -28,7 +28,8 @@ pub fn gen_case(t: &mut Tape) -> Case {
     let end_async = any_async && first_sync == depth && t.flip();
     let mut src = String::from("#![allow(warnings)]\nuse crate::rt;\npub struct App;\n");
     let is_async = |i: usize| i < first_sync;
-    // the entraited chain
+    // the entraited chain (`?Send` has to be given on every async level or on none: a Send future cannot await a non-Send one)
+    let chain_no_send = any_async && t.chance(1, 4);
     let mut lts: Vec<bool> = vec![];
     for i in 0..depth {
         let a = is_async(i);
@@ -58,9 +59,10 @@ pub fn gen_case(t: &mut Tape) -> Case {
         let extra_param = if named_lt { ", tag: &'a str" } else { "" };
         let body = if named_lt { body.replacen("let r =", "let _n = tag.len(); let r =", 1) } else { body };
         if in_mod {
-            src.push_str(&format!("#[::entrait::entrait(pub F{i})]\npub mod m{i} {{\n    use super::*;\n    pub {q}fn f{i}{g}({deps_form}, x: u64{extra_param}) -> u64 {body}\n    pub fn unused{i}(_deps: &impl Sized) {{}}\n}}\n"));
+            src.push_str(&format!("#[::entrait::entrait(pub F{i}{})]\npub mod m{i} {{\n    use super::*;\n    pub {q}fn f{i}{g}({deps_form}, x: u64{extra_param}) -> u64 {body}\n    pub fn unused{i}(_deps: &impl Sized) {{}}\n}}\n", if a && chain_no_send { ", ?Send" } else { "" }));
         } else {
-            src.push_str(&format!("#[::entrait::entrait(pub F{i})]\n{q}fn f{i}{g}({deps_form}, x: u64{extra_param}) -> u64 {body}\n"));
+            let opt = if a && chain_no_send { ", ?Send" } else if t.chance(1, 5) { ", export = false" } else if t.chance(1, 6) { ", mock_api = TheMock, unimock = false" } else { "" };
+            src.push_str(&format!("#[::entrait::entrait(pub F{i}{opt})]\n{q}fn f{i}{g}({deps_form}, x: u64{extra_param}) -> u64 {body}\n"));
         }
     }
     let eq = if end_async { "async " } else { "" };
